@@ -205,6 +205,32 @@ NewItem(s, c) ==
 AcceptSafe(s, b, pfx, unknown) ==
   \A c \in CandP(s, b, pfx) : BadOf(Diags(s, Append(b, NewItem(s, c)), <<>>, unknown)) \subseteq BadOf(Diags(s, b, <<>>, unknown))
 
+\* ---- names, types and labels: tokens with modifiers, hover (C13, C12) ------------------------------------------
+Mods(x) == IF "mods" \in DOMAIN x THEN x.mods ELSE <<>>
+Desc(x) == IF "desc" \in DOMAIN x THEN x.desc ELSE ""
+ExtAttr(s, n) == (s.ext.count /\ n = "count") \/ (s.ext.forEach /\ n = "for_each")
+
+\* every schema-known name written in the document: attribute names, block types, labels (not the surplus ones),
+\* with the modifiers of the element and of all enclosing blocks and the description the effective schema gives it
+RECURSIVE NamesP(_, _, _, _)
+NamesP(s, body, path, pmods) ==
+  IF s = Nil THEN {} ELSE
+  UNION { LET it == body[i] p == path \o <<i>> IN
+          IF it.k = "attr"
+          THEN (IF Has(s.attrs, it.name) THEN {[kind |-> "attr", path |-> p, j |-> 0, mods |-> pmods \o Mods(s.attrs[it.name]), desc |-> Desc(s.attrs[it.name]), text |-> it.name]}
+                ELSE IF ExtAttr(s, it.name) \/ s.any THEN {[kind |-> "attr", path |-> p, j |-> 0, mods |-> pmods, desc |-> "", text |-> it.name]}
+                ELSE {})
+          ELSE IF ~Has(s.blocks, it.type) THEN {}
+          ELSE LET bs == s.blocks[it.type]
+                   bm == pmods \o Mods(bs)
+                   lk == Lookup(bs, it)
+               IN  {[kind |-> "block", path |-> p, j |-> 0, mods |-> bm, desc |-> Desc(bs), text |-> it.type]}
+                   \cup { [kind |-> "label", path |-> p, j |-> j, mods |-> bm \o Mods(bs.labels[j]),
+                           desc |-> IF bs.labels[j].dep /\ lk.res \in {"Ok", "Partial"} /\ Desc(lk.body) # "" THEN Desc(lk.body) ELSE Desc(bs.labels[j]),
+                           text |-> it.labels[j]] : j \in 1..(IF Len(bs.labels) < Len(it.labels) THEN Len(bs.labels) ELSE Len(it.labels)) }
+                   \cup (IF bs.body = Nil THEN {} ELSE NamesP(Effective(bs, it).schema, it.body, p, bm))
+        : i \in DOMAIN body }
+
 \* ---- documentation links (C16, last clause) --------------------------------------------------
 \* links of one top-level block: on every label and written attribute that selected a body having a link
 LinksP(bs, blk) ==
